@@ -1248,6 +1248,11 @@ THREAD_EXPLORE = {
                   "sys=takemerge fixed=1 n=1 th=2 q0=1,3 q1=2 f0=T f1=E101",
                   "sys=takemerge fixed=1 n=2 th=3 q0=1 q1=2 q2=- f0=T f1=N f2=E102",
                   "sys=takemerge fixed=1 n=1 th=3 q0=1 q1=- q2=- f0=T f1=T f2=E102"],
+    "takecombine": ["sys=takecombine fixed=1 n=1 th=2 q0=1 q1=2 f0=T f1=T",
+                    "sys=takecombine fixed=1 n=2 th=2 q0=1 q1=2 f0=T f1=E101",
+                    "sys=takecombine fixed=1 n=1 th=2 q0=1 q1=2,4 f0=N f1=T",
+                    "sys=takecombine fixed=1 n=1 th=2 q0=1,3 q1=2 f0=T f1=T",
+                    "sys=takecombine fixed=1 n=2 th=2 q0=1,3 q1=2 f0=T f1=E101"],
     "combine": ["sys=combine fixed=1 n=2 th=2 q0=1 q1=2 f0=T f1=T",
                 "sys=combine fixed=1 n=2 th=2 q0=1,3 q1=2 f0=T f1=T",
                 "sys=combine fixed=1 n=2 th=2 q0=1 q1=2 f0=E100 f1=T",
@@ -1297,9 +1302,13 @@ def thread_check(prop, tier, seed, t0, syss, kinds, real_only=()):
                     model_bad.append("%s sched=%s" % (cfg, sched))
     # merge at the granularity of every access, the talkback cells included (coq/theories/ThreadsFine.v):
     # every schedule of small configurations, in the extracted model
-    if "merge" in syss:
-        fine_cfgs = [c + " free=1" for c in THREAD_EXPLORE["merge"][:3]]
-        if tier == "thorough":
+    if True:
+        fine_cfgs = []
+        for sysname in syss:
+            k = 3 if sysname == "merge" or tier == "thorough" else 2
+            # combine with two data per member has 3e5 coarse schedules already: not at the finer granularity
+            fine_cfgs += [c + " free=1" for c in THREAD_EXPLORE[sysname][:k] if not (sysname == "combine" and "q0=1,3" in c)]
+        if tier == "thorough" and "merge" in syss:
             fine_cfgs += THREAD_EXPLORE_FINE3
         def explore_fine(cfg):
             return cfg, sh([DRIVER, "texplore", "3"] + cfg.split(), timeout=3000)
@@ -1321,10 +1330,10 @@ def thread_check(prop, tier, seed, t0, syss, kinds, real_only=()):
             for seq in itertools.product("01", repeat=L):
                 lines.append("%s sched=%s" % (cfg, ",".join(seq)))
                 n_exh += 1
-    if "merge" in syss:
+    for sysname in syss:
         # the same on the finer scheduling points
         Lf = 9 if tier == "quick" else 13
-        for cfg in THREAD_EXPLORE["merge"][:2 if tier == "quick" else 3]:
+        for cfg in [c for c in THREAD_EXPLORE[sysname] if "th=2" in c][:2 if tier == "quick" else 3]:
             for seq in itertools.product("01", repeat=Lf):
                 lines.append("%s free=1 sched=%s" % (cfg, ",".join(seq)))
                 n_exh += 1
@@ -1333,7 +1342,8 @@ def thread_check(prop, tier, seed, t0, syss, kinds, real_only=()):
     if r.returncode != 0:
         raise Fail("thread script generation failed: " + r.stderr[-1000:])
     lines += [l for l in r.stdout.splitlines() if l.strip()]
-    # take behind merge (coq/theories/ThreadsTakeMerge.v): the merge generator, renamed; a member may fail
+    # take behind merge / combine (coq/theories/ThreadsTakeMerge.v, ThreadsTakeCombine.v): the merge generator,
+    # renamed; a member may fail
     ro_lines = []
     for ro in real_only:
         r = sh([DRIVER, "tgen", str(seed + 7), str(n_rand // 3), "merge"])
@@ -1368,10 +1378,10 @@ def thread_check(prop, tier, seed, t0, syss, kinds, real_only=()):
             nth = int(re.search(r"th=(\d+)", cfg).group(1))
             sched = ",".join(str(rnd.randrange(nth)) for _ in range(rnd.randrange(8, 70)))
             free_lines.append("%s free=1 sched=%s" % (cfg, sched))
-    # merge has an interleaving model at that granularity (ThreadsFine.v): its free runs are compared with
-    # the model event by event like the others; for take and combine they are judged on the crate's trace alone
+    # take, merge and combine have an interleaving model at that granularity (ThreadsFine.v): their free runs are
+    # compared with the model event by event like the others
     def fine_model(l):
-        return "free=1" in l and "sys=merge " in l
+        return "free=1" in l and re.search(r"sys=(take|merge|combine) ", l) is not None
     lines += [l for l in free_lines if fine_model(l)]
     ro_lines += [l for l in lines if "free=1" in l and not fine_model(l)]
     ro_lines += [l for l in free_lines if not fine_model(l)]
@@ -1431,7 +1441,7 @@ def thread_check(prop, tier, seed, t0, syss, kinds, real_only=()):
         problem = None
         if mism:
             a, m, h = mism[0]
-            problem = dict(kind="correspondence-broken", what="thread model (coq/theories/Threads.v; free=1: ThreadsFine.v; takemerge: ThreadsTakeMerge.v) and crate disagree",
+            problem = dict(kind="correspondence-broken", what="thread model (coq/theories/Threads.v; free=1: ThreadsFine.v; takemerge: ThreadsTakeMerge.v; takecombine: ThreadsTakeCombine.v) and crate disagree",
                            thread_script=a, model_trace=m, crate_trace=h, mismatching=len(mism))
         elif seq_mis:
             a, m, h = seq_mis[0]
@@ -1449,8 +1459,9 @@ def thread_check(prop, tier, seed, t0, syss, kinds, real_only=()):
         obligations=max(1, audit["obligations"]), discharged=audit["discharged"],
         checker_cmd="coqc -Q coq/theories CB coq/theories/Properties/%s.v (after make -C coq)" % prop,
         trusted_base=TRUSTED_BASE + ["interleaving model coq/theories/Threads.v (sequentially consistent, one scheduling point "
-                                     "per instrumented access and per sink delivery); merge also at the granularity of every "
-                                     "talkback-cell access (coq/theories/ThreadsFine.v, scripts with free=1)",
+                                     "per instrumented access and per sink delivery); take, merge and combine also at the granularity of "
+                                     "every talkback-cell access (coq/theories/ThreadsFine.v, scripts with free=1); take behind merge "
+                                     "(coq/theories/ThreadsTakeMerge.v)",
                                      "hooks /repo/src/verif_hooks.rs and the token-passing scheduler harness/src/threads.rs"],
         theorems=audit["theorems"], axioms=audit["axioms"], audit_problems=audit["problems"],
         evaluations=len(lines) + len(ro_lines), distinct_nontrivial=len(distinct),
@@ -1524,7 +1535,7 @@ def treplay(prop, path):
 CUSTOM = {
     "C06": c06_check,
     "C18": lambda prop, tier, seed, t0: thread_check(prop, tier, seed, t0, ["merge", "combine"], ["C18"]),
-    "C19": lambda prop, tier, seed, t0: thread_check(prop, tier, seed, t0, ["take"], ["C19"], real_only=("takemerge",)),
+    "C19": lambda prop, tier, seed, t0: thread_check(prop, tier, seed, t0, ["take"], ["C19", "C18"], real_only=("takemerge", "takecombine")),
 }
 
 
